@@ -57,7 +57,7 @@ def main():
             "engine": "cucumber-sim",
             "level_claimed": {
                 "category": "exploration",
-                "text": text + ". Seeded sampling, not enumeration: a clean batch is evidence, not proof; every violation is shrunk and replays exactly from its file.",
+                "text": text + (". Quick tier: plain build, the tracing build (cfg-gated paths) and, for C02-C10, runs with the tracing collector installed on plans whose user code logs" if world in ("A", "B") else "") + ". Seeded sampling, not enumeration: a clean batch is evidence, not proof; every violation is shrunk and replays exactly from its file.",
                 "design_ref": "DESIGN.md section " + ref,
             },
             "level_note": "trusted base: the simulator (sim/src/core.rs), the reference model and oracles (sim/src/model.rs, oracle_*.rs, worldc.rs), the add-only hooks H1-H5; not simulated: clap argv parsing, parser::Basic file walking, the real sleeper thread, terminal detection",
